@@ -1,5 +1,5 @@
 SPECIFICATION Spec
-CONSTANTS MaxR = 2  MaxC = 3  MaxEnt = 2  Depth = 2  Emit = FALSE
+CONSTANTS MaxR = 2  MaxC = 3  MaxEnt = 2  Depth = 2  Emit = FALSE  WithZero = TRUE
 VIEW View
 INVARIANTS Inv_WellFormed Inv_Refines Inv_Products
 CHECK_DEADLOCK FALSE
